@@ -74,8 +74,7 @@ func (e *DefaultExecutor) Execute(ctx context.Context, job *Job) ([]byte, error)
 		return nil, err
 	}
 
-	env := e.env
-	env = append(env, utils.ConvertEnv(utils.ConvertToMapOfStrings(job.Env.Map()))...)
+	env := overrideEnv(e.env, utils.ConvertEnv(utils.ConvertToMapOfStrings(job.Env.Map())))
 
 	if job.Dir == "" {
 		job.Dir = e.dir
@@ -103,6 +102,31 @@ func (e *DefaultExecutor) Execute(ctx context.Context, job *Job) ([]byte, error)
 	}
 
 	return e.buf.Bytes()[offset:], nil
+}
+
+// overrideEnv returns base with the definitions of over applied on top: every
+// name is listed once and the last definition wins. Passing duplicates on to
+// expand.ListEnviron would let it choose between them by sorting the
+// "name=value" strings, i.e. by the values.
+func overrideEnv(base, over []string) []string {
+	index := make(map[string]int, len(base)+len(over))
+	env := make([]string, 0, len(base)+len(over))
+	for _, list := range [][]string{base, over} {
+		for _, kv := range list {
+			name := kv
+			if i := strings.IndexByte(kv, '='); i >= 0 {
+				name = kv[:i]
+			}
+			if j, ok := index[name]; ok {
+				env[j] = kv
+				continue
+			}
+			index[name] = len(env)
+			env = append(env, kv)
+		}
+	}
+
+	return env
 }
 
 // IsExitStatus checks if given `err` is an exit status
